@@ -187,6 +187,7 @@ func (r *replayer) replay(e entryInfo, ob *obligation) (dir string, reproduced b
 	os.WriteFile(filepath.Join(dir, "script.json"), script, 0o644)
 	meta := map[string]interface{}{"property": r.cfg.Property, "entry": e.Name, "pkgdir": e.PkgDir, "label": ob.Label, "known_finding": ob.Known,
 		"how": "bin/check replay " + dir}
+	_ = meta
 	mb, _ := json.MarshalIndent(meta, "", " ")
 	os.WriteFile(filepath.Join(dir, "meta.json"), mb, 0o644)
 	out, err := r.run(e.PkgDir, e.Name, script, filepath.Join(dir, "native.log"), 60*time.Second)
